@@ -105,17 +105,19 @@ Qed.
 Lemma strip_nd l : Forall (fun e : index * post1 * bool => nd_post (snd (fst e))) l -> nd_ixs (strip l).
 Proof. induction 1 as [|[[ix p] b] l H _ IH]; simpl; constructor; auto. Qed.
 
-Lemma upd_loop_nd insf id names od nd : forall ixs, nd_ixs ixs ->
-  Forall (fun e : index * post1 * bool => nd_post (snd (fst e))) (fst (upd_loop insf id names od nd ixs)).
+Lemma upd_loop_nd insf comp id names od nd : forall ixs, nd_ixs ixs ->
+  Forall (fun e : index * post1 * bool => nd_post (snd (fst e))) (fst (upd_loop insf comp id names od nd ixs)).
 Proof.
   induction ixs as [|[ix p] r IH]; intros H; simpl; [constructor|]. inversion H; subst. specialize (IH H3). simpl in H2.
   destruct (touches ix names).
   - pose proof (ix_update_nd insf (uniq_of ix) p id (hook_or_null ix od) (hook_or_null ix nd) H2) as X.
     destruct (ix_update insf (uniq_of ix) p id (hook_or_null ix od) (hook_or_null ix nd)) as [p' ok]. simpl in X.
     destruct ok.
-    + destruct (upd_loop insf id names od nd r) as [r0 ok2]. simpl in *. constructor; auto.
-    + simpl. constructor; auto. clear -H3. induction H3; simpl; constructor; auto.
-  - destruct (upd_loop insf id names od nd r) as [r0 ok]. simpl in *. constructor; auto.
+    + destruct (upd_loop insf comp id names od nd r) as [r0 ok2]. simpl in *. constructor; auto.
+    + simpl. constructor.
+      * simpl. destruct comp; auto. apply ix_update_nd. auto.
+      * clear -H3. induction H3; simpl; constructor; auto.
+  - destruct (upd_loop insf comp id names od nd r) as [r0 ok]. simpl in *. constructor; auto.
 Qed.
 
 Lemma upd_rollback_nd insf id od nd l :
@@ -144,14 +146,14 @@ Proof.
   destruct ft; cbn [fst st_ix]; [apply strip_nd | apply add_rollback_nd]; auto.
 Qed.
 
-Lemma update_nd insf sch s id fs ft : nd_ixs (st_ix s) -> nd_ixs (st_ix (fst (update insf sch s id fs ft))).
+Lemma update_nd insf comp sch s id fs ft : nd_ixs (st_ix s) -> nd_ixs (st_ix (fst (update insf comp sch s id fs ft))).
 Proof.
   intros H. unfold update. destruct (get_doc (st_docs s) id) as [od|]; [|exact H].
   destruct fs as [|f0 fr]; [exact H|]. remember (f0 :: fr) as fs0.
   destruct (set_fields sch od fs0) as [nd|e]; [|exact H].
   destruct (negb (validate sch nd)); [exact H|].
-  pose proof (upd_loop_nd insf id (map fst fs0) od nd _ H) as X.
-  destruct (upd_loop insf id (map fst fs0) od nd (st_ix s)) as [l ok]. cbn [fst] in X.
+  pose proof (upd_loop_nd insf comp id (map fst fs0) od nd _ H) as X.
+  destruct (upd_loop insf comp id (map fst fs0) od nd (st_ix s)) as [l ok]. cbn [fst] in X.
   pose proof (upd_rollback_nd insf id od nd l X) as Y. destruct (upd_rollback insf id od nd l) as [ixs r]. cbn [fst] in Y.
   destruct (negb ok); [exact Y|]. destruct ft; cbn [fst st_ix]; [apply strip_nd; auto | exact Y].
 Qed.
@@ -162,22 +164,22 @@ Proof.
   destruct ft; cbn [fst st_ix]; [apply rem_loop_nd; auto | exact H].
 Qed.
 
-Lemma step_nd insf sch s o : nd_ixs (st_ix s) -> nd_ixs (st_ix (fst (step insf sch s o))).
+Lemma step_nd insf comp sch s o : nd_ixs (st_ix s) -> nd_ixs (st_ix (fst (step insf comp sch s o))).
 Proof.
   intros H. unfold step. destruct o.
   - destruct (set_fields sch empty_doc fs); [|exact H]. destruct (st_poison s); [exact H|].
     pose proof (add_nd sch s fs ft H) as X. destruct (add sch s fs ft) as [s1 r1]. exact X.
   - destruct (st_poison s); [exact H|].
-    pose proof (update_nd insf sch s id fs ft H) as X. destruct (update insf sch s id fs ft) as [s1 r1]. exact X.
+    pose proof (update_nd insf comp sch s id fs ft H) as X. destruct (update insf comp sch s id fs ft) as [s1 r1]. exact X.
   - destruct (st_poison s); [exact H|].
     pose proof (remove_nd s id ft H) as X. destruct (remove s id ft) as [s1 r1]. exact X.
 Qed.
 
-Lemma run_nd insf sch os : forall s, nd_ixs (st_ix s) -> nd_ixs (st_ix (fst (run insf sch s os))).
+Lemma run_nd insf comp sch os : forall s, nd_ixs (st_ix s) -> nd_ixs (st_ix (fst (run insf comp sch s os))).
 Proof.
   induction os as [|o r IH]; intros s H; simpl; auto.
-  pose proof (step_nd insf sch s o H) as X. destruct (step insf sch s o) as [s1 x]. simpl in X.
-  specialize (IH s1 X). destruct (run insf sch s1 r). auto.
+  pose proof (step_nd insf comp sch s o H) as X. destruct (step insf comp sch s o) as [s1 x]. simpl in X.
+  specialize (IH s1 X). destruct (run insf comp sch s1 r). auto.
 Qed.
 
 Lemma init_nd ixs : nd_ixs (st_ix (init ixs)).
@@ -185,7 +187,7 @@ Proof. induction ixs; simpl; constructor; auto. intros k. constructor. Qed.
 
 Lemma lookup_NoDup sch ixs s i k : reachable sch ixs s -> NoDup (lookup s i k).
 Proof.
-  intros [os ->]. pose proof (run_nd true sch os _ (init_nd ixs)) as H. unfold lookup.
+  intros [os ->]. pose proof (run_nd true true sch os _ (init_nd ixs)) as H. unfold lookup.
   destruct (nth_error _ i) as [[ix p]|] eqn:N; [|constructor].
   unfold nd_ixs in H. rewrite Forall_forall in H. apply (H (ix, p)). eapply nth_error_In; eauto.
 Qed.
